@@ -39,4 +39,35 @@ theorem estimate_total_for_any_seek (v : DataView) (sb eb : Bound) (r : RoughPos
     (h : roughPos v sb eb = .ok r) : ∃ est, estimateLines p dl r = .ok est :=
   roughPos_estimate_ok v sb eb r p dl h
 
+theorem okStart_mono (b : Spec.Bound) (x y : Nat) (h : x ≤ y) (hx : b.okStart x = true) : b.okStart y = true := by
+  cases b <;> simp [Spec.Bound.okStart] at hx ⊢ <;> omega
+
+theorem okEnd_mono (b : Spec.Bound) (x y : Nat) (h : y ≤ x) (hx : b.okEnd x = true) : b.okEnd y = true := by
+  cases b <;> simp [Spec.Bound.okEnd] at hx ⊢ <;> omega
+
+/-- **the samples `read_n` returns have strictly increasing timestamps inside the bounds** -/
+theorem samples_increasing_within_bounds (p n : Nat) (M : List Entry) (hv : Valid p M) (sb eb : Bound)
+    (r : R (List Entry)) (h : TailResult p n M sb eb r) (out : List Entry) (hr : r = .ok out) :
+    out.Pairwise (fun a b => a.ts < b.ts) ∧
+    ∀ y ∈ out, (toSpecBound sb).okStart y.ts = true ∧ (toSpecBound eb).okEnd y.ts = true := by
+  rcases h with ⟨b, hb, hres, _⟩ | ⟨_, c, hres⟩
+  · rw [hr] at hres
+    simp only [Except.ok.injEq] at hres
+    subst hres
+    have hsub : (Spec.filterBounds (toSpecBound sb) (toSpecBound eb) M).Sublist M := by
+      unfold Spec.filterBounds; exact List.filter_sublist
+    have hvf : Valid p (Spec.filterBounds (toSpecBound sb) (toSpecBound eb) M) :=
+      ⟨List.Pairwise.sublist hsub hv.1, fun x hx => hv.2 x (hsub.subset hx)⟩
+    refine ⟨(valid_bucketMeans p b hb _ hvf).1, ?_⟩
+    intro y hy
+    obtain ⟨⟨a, ha, hay⟩, ⟨c, hc, hyc⟩⟩ := bucketMeans_bounds b (Spec.linMean p) _ hb hvf.1 y hy
+    have hfa : (toSpecBound sb).okStart a.ts = true := by
+      have := (List.mem_filter.mp (by unfold Spec.filterBounds at ha; exact ha)).2
+      simp only [Bool.and_eq_true] at this; exact this.1
+    have hfc : (toSpecBound eb).okEnd c.ts = true := by
+      have := (List.mem_filter.mp (by unfold Spec.filterBounds at hc; exact hc)).2
+      simp only [Bool.and_eq_true] at this; exact this.2
+    exact ⟨okStart_mono _ _ _ hay hfa, okEnd_mono _ _ _ hyc hfc⟩
+  · rw [hr] at hres; simp at hres
+
 end BS.Props.C11
